@@ -555,7 +555,8 @@ def check_case(ctx, c, model_out=None):
         c3 = dict(c, shape=c["shape"] + [1], axis=c["axis"] % 2, time_axis=c["time_axis"] % 2)
         k3, r3 = run_impl(c3, make_input(c3))
         if k3 == "err" or r3.shape != res.shape + (1,) or not np.array_equal(r3[..., 0], res, equal_nan=True):
-            ctx.violation(c, res.tolist(), r3 if k3 == "err" else r3[..., 0].tolist(),
+            ctx.violation(c, dict(shape=list(res.shape), values=res.tolist()),
+                          r3 if k3 == "err" else dict(shape=list(r3.shape), values=r3.tolist()),
                           "2-D input and the same input with a trailing singleton axis (N-D branch) agree",
                           tags=dict(tags, clause="2d_vs_nd"))
     return rep
